@@ -138,6 +138,13 @@ class C13(Check):
                 cs.append({"kind": "history", "how": how, "order": order})
         for i in range(len(PATTERNS)):
             cs.append({"kind": "pattern", "pat": i})
+        # the same signer behind the other dongle classes (manager_tcp: Platform.X86 + HSM2DongleTCP;
+        # the TCPSigner runs the same hsm.c / heartbeat.c)
+        cs.append({"kind": "state", "rot": 3, "diff": 3, "platform": "tcp"})
+        cs.append({"kind": "params", "mind": 2, "platform": "tcp"})
+        cs.append({"kind": "signer-hb", "der": 0, "platform": "tcp"})
+        cs.append({"kind": "signer-hb", "der": 1, "platform": "tcp"})
+        cs.append({"kind": "pubkey", "platform": "tcp"})
         return cs
 
     def viol(self, vs, clause, detail, case, choices, observed, expected):
@@ -179,9 +186,9 @@ class C13(Check):
         elif k == "pubkey":
             for v1 in (False, True):
                 for p in reqs.PATHS + ["m/44'/0'/0'/0/1", "m/0/0/0/0/0"]:
-                    self.one_pubkey(p, v1, stats, vs)
+                    self.one_pubkey(p, v1, stats, vs, case.get("platform", "ledger"))
         elif k == "one-pubkey":
-            self.one_pubkey(case["path"], case["v1"], stats, vs)
+            self.one_pubkey(case["path"], case["v1"], stats, vs, case.get("platform", "ledger"))
         elif k == "signer-hb":
             self.one_signer_hb(case, stats, vs)
         elif k == "ui-hb":
@@ -340,7 +347,7 @@ class C13(Check):
         fl = tuple((flags >> i) & 1 for i in range(3))
         dev.flags = fl
         w = World(dev)
-        proto = harness.make_protocol(w)
+        proto = harness.make_protocol(w, platform=case.get("platform", "ledger"))
         reply, exc = harness.handle_request(proto, {"command": "blockchainState", "version": 5})
         c = dict(case, kind="one-state", flags=flags)
         stats.observe(("state", case["diff"], flags, reply.get("errorcode") if reply else None))
@@ -375,7 +382,7 @@ class C13(Check):
         dev.min_difficulty = BIG[case["mind"]]
         dev.network = net
         w = World(dev)
-        proto = harness.make_protocol(w)
+        proto = harness.make_protocol(w, platform=case.get("platform", "ledger"))
         reply, exc = harness.handle_request(proto, {"command": "blockchainParameters", "version": 5})
         c = dict(case, kind="one-params", net=net)
         code = reply.get("errorcode") if isinstance(reply, dict) else None
@@ -401,15 +408,15 @@ class C13(Check):
             if p.get(kk) != v or isinstance(p.get(kk), bool):
                 self.viol(vs, "params-field" + tag, kk, c, None, {kk: p.get(kk)}, {kk: v})
 
-    def one_pubkey(self, path, v1, stats, vs):
+    def one_pubkey(self, path, v1, stats, vs, platform="ledger"):
         from ..simdev.powhsm import pseudo_pubkey
         stats.evaluations += 1
         dev = self.mkdev()
         w = World(dev)
-        proto = harness.make_protocol(w, v1=v1)
+        proto = harness.make_protocol(w, v1=v1, platform=platform)
         reply, exc = harness.handle_request(proto, {"command": "getPubKey", "version": 1 if v1 else 5,
                                                     "keyId": path})
-        c = {"kind": "one-pubkey", "path": path, "v1": v1}
+        c = {"kind": "one-pubkey", "path": path, "v1": v1, "platform": platform}
         code = reply.get("errorcode") if isinstance(reply, dict) else None
         stats.observe(("pubkey", path in reqs.PATHS, v1, code))
         if path in reqs.PATHS:
@@ -428,7 +435,7 @@ class C13(Check):
         dev = self.mkdev()
         dev.signature_for = lambda material: sig
         w = World(dev)
-        proto = harness.make_protocol(w)
+        proto = harness.make_protocol(w, platform=case.get("platform", "ledger"))
         ud = Rng("c13-ud").bytes(16).hex()
         reply, exc = harness.handle_request(proto, {"command": "signerHeartbeat", "version": 5,
                                                     "udValue": ud})
